@@ -8,7 +8,7 @@ CONSTANTS
   MaxOps = 9
   RetryExact = TRUE
   SyncTask = TRUE
-  Dev = {"late-any-peer"}
+  Dev = {"late-any-peer", "late-forwarded"}
 INIT Init
 NEXT Next
 VIEW view
